@@ -109,6 +109,8 @@ void vh_gunpoison(int a);
 /* fault attribution: installs SIGSEGV/SIGBUS handler that reports the
  * faulting address relative to guard arenas then re-raises. */
 void vh_install_fault_handler(void);
+/* optional: describe a faulting address that is not in a guard arena; returns non-zero if described */
+extern int (*vh_fault_describe_hook)(const void *addr, char *buf, size_t n);
 
 /* stack painter: fills ~n bytes of stack below the caller with v */
 void vh_paint_stack(int v, size_t n);
